@@ -38,13 +38,16 @@ def clipped (q : Req) (i : Int) : Int × Int :=
   let s := q.offset + i * q.every
   (max s q.bstart, min (s + q.every) q.bstop)
 
-/-- ascending list of distinct window indices of time-ordered points -/
+set_option wf.preprocess false in
+/-- the distinct window indices of the points, in order of first appearance (ascending for
+    time-ordered points) -/
 def distinctIdx (q : Req) : List (Pt Val) → List Int
   | [] => []
-  | p :: ps =>
-    match distinctIdx q ps with
-    | j :: js => if widx q p.1 = j then j :: js else widx q p.1 :: j :: js
-    | [] => [widx q p.1]
+  | p :: ps => widx q p.1 :: distinctIdx q (ps.filter fun x => !(widx q x.1 == widx q p.1))
+termination_by l => l.length
+decreasing_by
+  simp only [List.length_cons]
+  exact Nat.lt_succ_of_le (List.length_filter_le _ _)
 
 /-- `lo, lo+1, …` (`n` of them) -/
 def intRange (lo : Int) : Nat → List Int
